@@ -90,7 +90,7 @@ class Configuration:
         .. note:: if multiprocessing is used, the seed for each process is set randomly as otherwise
                   all the processes would have the same seed
         """
-        if self.seed and not multiprocessing:
+        if self.seed is not None and not multiprocessing:
             np.random.seed(self.seed)
             np.random.default_rng(self.seed)
             random.seed(self.seed)
